@@ -27,9 +27,11 @@ CHECKS = {
             "nothing and returns the same schedule", "6-C08"),
     "C09": ("SchedView.tla!CachesOK (every cached figure of tours, schedule, transitions, depots against the from-scratch "
             "TLA+ definitions) evaluated by TLC on every state of adaptive random walks over all 12 public modifications, "
-            "on every pipeline stage snapshot, and (tour level) on the exhaustive Gen_Tour cases", "6-C09"),
+            "on every pipeline stage snapshot, on the repository's own tests (hook H3) and (tour level) on the exhaustive Gen_Tour "
+            "cases; TourCache.tla!CacheLaws: the documented delta formulas keep exact caches exact on all tiny networks", "6-C09"),
     "C10": ("SchedView.tla!SchedInv (tours, formations, limits, sorted listings, cycle partition + successor probe) evaluated "
-            "by TLC on every state of the walks and every pipeline stage snapshot", "6-C10"),
+            "by TLC on every state of the walks, every pipeline stage snapshot and the repository's own tests (hook H3); MC_Schedule!AbsInv "
+            "on the specification's own state machine", "6-C10"),
     "C11": ("rsv ls --mode cand enumerates RSSchedParallelNeighborhood::neighbors_of on random (not only improving) walks; TLC "
             "evaluates SchedView.tla!SchedInv and CachesOK on every projected candidate; enumeration must not panic and the base "
             "projection digest must be unchanged", "6-C11"),
@@ -38,7 +40,9 @@ CHECKS = {
             "path and segment; rsv tour executes them on the real Tour code; TraceTour.tla validates every result", "6-C12"),
     "C13": ("Schedule.tla: reference semantics Pre_X / Res_X of each public modification (whole next abstract state, hence frame "
             "conditions; relational for heuristics); TraceSched.tla checks every observed (pre, call, post) triple of the walks, "
-            "refusals, returned ids, untouched input value", "6-C13"),
+            "refusals, returned ids, untouched input value; the same formulas on every modification call of the repository's own 51 "
+            "tests (hook H3); MC_Schedule (Det) emits ~20 k model states with histories which are replayed on the real Schedule and "
+            "must yield exactly the model state (spec -> implementation)", "6-C13"),
     "C14": ("Circulation.tla: the per-type covering circulation network is built from the abstract instance alone (arcs wherever "
             "the reference CanReach holds; lexicographic pair costs (vehicles, operating cost)); the flow induced by the tours of "
             "MinCostFlowSolver::solve (hook snapshot mcf) must be feasible (coverage bounds, allotted tracks, per-type depot "
